@@ -976,3 +976,24 @@ Proof.
       eapply Permutation_trans; [exact Hp | apply sort_by_name_perm]. }
   rewrite Hs. rewrite <- (pos_total_perm _ _ (sort_by_name_perm b)). reflexivity.
 Qed.
+(* stickyBalance / the backend inventory do not depend on the order in which Init or Update left the backend list *)
+Lemma bk_sorted_perm bks bks' :
+  NoDup (map addr_info bks) -> Permutation bks bks' -> bk_sorted bks = bk_sorted bks'.
+Proof.
+  intros Hnd Hp. unfold bk_sorted. f_equal.
+  assert (Hk : forall l : list bk, map fst (map (fun b => (addr_info b, b)) l) = map addr_info l)
+    by (intro l; rewrite map_map; reflexivity).
+  assert (Hp' : Permutation (map (fun b => (addr_info b, b)) bks) (map (fun b => (addr_info b, b)) bks'))
+    by (apply Permutation_map; exact Hp).
+  apply sorted_perm_eq.
+  - apply sort_by_name_sorted. rewrite Hk. exact Hnd.
+  - apply sort_by_name_sorted. rewrite Hk. eapply Permutation_NoDup; [apply Permutation_map; exact Hp | exact Hnd].
+  - eapply Permutation_trans; [apply Permutation_sym; apply sort_by_name_perm|].
+    eapply Permutation_trans; [exact Hp' | apply sort_by_name_perm].
+Qed.
+Lemma sticky_pick_perm bks bks' h :
+  NoDup (map addr_info bks) -> Permutation bks bks' ->
+  sticky_pick bks h = sticky_pick bks' h /\ bk_inventory bks = bk_inventory bks'.
+Proof.
+  intros Hnd Hp. unfold sticky_pick, bk_inventory. rewrite (bk_sorted_perm bks bks' Hnd Hp). split; reflexivity.
+Qed.
